@@ -25,3 +25,16 @@ Print Assumptions until_time_split_unique.
 Theorem C16_sound : forall one split stt, C16.acc one split = Accept stt -> one = split.
 Proof. exact C16.C16_sound. Qed.
 Print Assumptions C16_sound.
+
+(* ---- T2: pause/resume transparency of the loop of simulate_until_max_time over the ENGINE MODEL (coq/Engine): a call to T1 followed by
+   a call to T on the remaining draws is the call to T, for every configuration, state and oracle (no hypothesis on the state: in the model
+   the next event is already picked between events; re-entering the real loop re-picks it, which is the proviso of until_time_split) ---- *)
+From Coq Require Import ZArith List.
+From CiwV.Engine Require Import State Engine Codec.
+From CiwV.Inv Require Import Horizon.
+Open Scope Z_scope.
+Theorem run_until_split_eq : forall cf T1 T, T1 <= T -> forall ds s,
+  Horizon.run_until cf T s ds =
+  match Horizon.run_until cf T1 s ds with Ok (s1, r1) => Horizon.run_until cf T s1 r1 | Err e => Err e | OutOfFuel => OutOfFuel end.
+Proof. exact Horizon.run_until_split_eq. Qed.
+Print Assumptions run_until_split_eq.
